@@ -176,7 +176,7 @@ def run(ctx):
         ctx.finding("crystal:%d" % b["group"], "get_is_chiral() wrong for a crystal of group %d" % b["group"], {"kind": "failing-input", "case": b})
     import analyzer_hist
     analyzer_hist.check(ctx, "C15", broken)
-    if broken and not ctx.findings:
+    if broken and not ctx.unknown_findings():
         ctx.finding("unproved", "proof/correspondence broken, no failing input found", {"kind": "broken-obligation", "broken": broken}, found_input=False)
     ctx.coverage["broken"] = [{"what": k, "info": i} for k, i in broken]
     ctx.coverage["correspondence_mismatches"] = len(mism)
